@@ -46,6 +46,7 @@ func run(c *vf.Ctx) {
 	pointerPlacement(c)
 	rejectionLattice(c)
 	histories(c)
+	editedMessage(c)
 }
 
 // ------------------------------------------------------------------ test message model
